@@ -37,6 +37,7 @@ type gTok struct {
 	family   int // index of the code that started the grant
 	redirect string
 	verifier string
+	altVerifier string // a verifier sent in the query next to a request_uri whose pushed request has its own challenge
 	method   string
 	used     bool
 	issuedAt int64
@@ -294,6 +295,8 @@ func (g *gen) next() HOp {
 		}
 		if t.verifier != "" {
 			switch {
+			case t.altVerifier != "" && r.Chance(35):
+				op.Verifier = t.altVerifier // the query's verifier: the pushed challenge is authoritative, so this must fail
 			case !r.Chance(2 * p.Bad):
 				op.Verifier = t.verifier
 			default:
@@ -359,7 +362,7 @@ func (g *gen) next() HOp {
 			owner = g.toks[i].client
 		}
 		op.Auth = g.auth(owner)
-		if i >= 0 && g.toks[i].kind == "refresh" && g.toks[i].used && r.Chance(25) {
+		if i >= 0 && g.toks[i].kind == "refresh" && ((g.toks[i].used && r.Chance(25)) || r.Chance(6)) {
 			// an exchanged refresh token replayed by another registered client that may use the grant
 			var others []int
 			for k, cl := range g.h.Clients {
@@ -531,9 +534,14 @@ func (g *gen) next() HOp {
 				op.Redirect = "https://evil.example/cb"
 				op.Scopes = []string{"admin", "photos"}
 			}
-			if r.Chance(25) {
+			if r.Chance(25) || (t.verifier != "" && r.Chance(40)) {
+				// PKCE parameters in the query next to the request_uri (the pushed ones, if any, are authoritative)
 				v := g.verifierFor(0)
-				op.Challenge, op.Method = s256(v), "S256"
+				if r.Bool() {
+					op.Challenge, op.Method = s256(v), "S256"
+				} else {
+					op.Challenge, op.Method = v, "plain"
+				}
 				op.Verifier = v
 			}
 		} else {
@@ -559,7 +567,7 @@ func (g *gen) next() HOp {
 		return op
 	case pick(p.WDecide):
 		i := g.pickTok("device", nil)
-		op := HOp{Kind: "decide", Tok: HTok{Ref: i}, Accept: !r.Chance(25), Subject: fmt.Sprintf("user-%d", r.Intn(3))}
+		op := HOp{Kind: "decide", Tok: HTok{Ref: i}, Accept: !r.Chance(25), Subject: fmt.Sprintf("user-%d", r.Intn(3)), FreshSession: r.Chance(30)}
 		if i >= 0 {
 			op.Granted = append([]string{}, g.toks[i].scopes...)
 			if r.Chance(25) && len(op.Granted) > 0 {
@@ -664,6 +672,14 @@ func genHistory(t *testing.T, r *RNG, p *Profile) (*HHistory, []HObs) {
 			if (op.Kind == "redeem" || op.Kind == "refresh" || op.Kind == "device_poll" || op.Kind == "revoke") && op.Auth >= 0 && op.Auth < len(g.h.Clients) && g.h.Clients[op.Auth].Public && r.Chance(30) {
 				op.PublicBasic = true
 			}
+			if (op.Kind == "redeem" || op.Kind == "refresh") && r.Chance(3) {
+				// the same request under another spelling of the grant type: no handler may take it
+				if op.Kind == "redeem" {
+					op.GrantSpelling = Pick(r, []string{"Authorization_Code", "AUTHORIZATION_CODE", "authorization-code"})
+				} else {
+					op.GrantSpelling = Pick(r, []string{"Refresh_Token", "REFRESH_TOKEN"})
+				}
+			}
 			if op.Kind == "redeem" || op.Kind == "refresh" || op.Kind == "device_poll" {
 				// the token's owner named in the body while another client authenticates
 				if op.Tok.Ref >= 0 && op.Tok.Ref < len(g.toks) && op.Auth >= 0 && op.Auth != g.toks[op.Tok.Ref].client && r.Chance(60) {
@@ -701,11 +717,13 @@ func genHistory(t *testing.T, r *RNG, p *Profile) (*HHistory, []HObs) {
 					g.toks[op.Tok.Ref].used = true
 					if len(o.Minted) == 1 {
 						src := g.toks[op.Tok.Ref]
-						v := src.verifier
+						v, alt := src.verifier, ""
 						if v == "" {
 							v = verifier
+						} else {
+							alt = verifier
 						}
-						g.toks = append(g.toks, gTok{kind: "code", client: src.client, family: len(g.toks), redirect: src.redirect, verifier: v, issuedAt: g.now, scopes: src.scopes})
+						g.toks = append(g.toks, gTok{kind: "code", client: src.client, family: len(g.toks), redirect: src.redirect, verifier: v, altVerifier: alt, issuedAt: g.now, scopes: src.scopes})
 					}
 				}
 			case "device_auth":
